@@ -22,6 +22,7 @@ OBLIGATIONS = [
 # verdict within 10 minutes per query (symbolic execution of setRuleResult / lookupRuleResult over the row model,
 # with the key bytes concrete and everything else symbolic, stays in symex; one 50-minute run is recorded in DESIGN.md).
 DISABLED = [
+    dict(COMMON, name='P1.probe', params_quick=[{'VF_CASE': 0, 'VF_KS': 1, 'VF_NV': 0, 'VF_ND': 0, 'VF_PROBE': p} for p in (2, 3)]),
     dict(COMMON, name='R1.roundtrip', params_quick=[{'VF_CASE': 0, 'VF_KS': ks, 'VF_NV': nv, 'VF_ND': nd} for (ks, nv, nd) in ((0, 1, 1), (1, 0, 0), (2, 2, 2), (3, 1, 2))]),
     dict(COMMON, name='R5.blob-width', params_quick=[{'VF_CASE': 3, 'VF_NV': n} for n in (0, 3, 8, 9)]),
 ]
